@@ -34,18 +34,34 @@ def gen(rng, tier):
         target = rng.choice(samples + [rng.choice(NAMES)]) if rng.random() < 0.9 else "ZZ"
         chroms = sorted(rng.sample([1, 2, 7, 23], rng.randint(1, 3)))
         lines = []
+        last_cm = {}  # chromosome -> the cM ends of the last block of every strand
         for s in samples:
+            twin = rng.random() < 0.12  # an unadmixed founder: both strands identical, block for block
+            prev = None
             for strand in (1, 2):
                 lines.append({"t": [f"{s}_{strand}"], "cm": 0})
+                body = []
                 for c in chroms:
                     nb = rng.randint(1, 3)
                     cms = sorted(rng.sample(range(1, 500), nb))
                     for cm in cms:
                         # cM with at most 1 decimal: exactly representable after *1e4 rounding
-                        lines.append({"t": [rng.choice(POPS), chrom_tok(c, rng.random() < 0.3), str(cm * 7), f"{cm/10:.1f}"], "cm": cm * 1000})
+                        body.append({"t": [rng.choice(POPS), chrom_tok(c, rng.random() < 0.3), str(cm * 7), f"{cm/10:.1f}"], "cm": cm * 1000})
+                if twin and prev is not None:
+                    body = [dict(b, t=list(b["t"])) for b in prev]
+                prev = body
+                lines += body
+                for b in body:
+                    last_cm.setdefault(b["t"][1].replace("chr", ""), {})[f"{s}_{strand}"] = b["cm"]
         ends = None
         if rng.random() < 0.55:
             ends = [[chrom_tok(c, False), rng.randint(600, 900) * 1000] for c in chroms]
+            if rng.random() < 0.4:
+                # a table derived from the same genetic map as the simulation: the listed end of a chromosome is exactly
+                # where the last block of the longest strand ends
+                for e in ends:
+                    if rng.random() < 0.7 and last_cm.get(e[0]):
+                        e[1] = max(last_cm[e[0]].values())  # no block of any strand lies beyond the listed end
             if rng.random() < 0.15:
                 ends.append([chrom_tok(9, False), 123000])  # chromosome not drawn
             if rng.random() < 0.1 and len(ends) > 1:
